@@ -167,7 +167,11 @@ func Normalise(opt LoadOptions, testIdents map[string]bool, loadFn func(map[stri
 			changed = true
 			continue
 		}
-		if cedits, cmsgs := closureRound(pkgs, overlay); len(cedits) > 0 {
+		cedits, cmsgs := closureRound(pkgs, overlay)
+		if len(cedits) == 0 {
+			log = append(log, cmsgs...) // why something was left alone
+		}
+		if len(cedits) > 0 {
 			log = append(log, cmsgs...)
 			prev = map[string][]byte{}
 			for k, v := range overlay {
@@ -186,6 +190,30 @@ func Normalise(opt LoadOptions, testIdents map[string]bool, loadFn func(map[stri
 				prev[k] = v
 			}
 			for path, content := range cedits {
+				overlay[path] = content
+			}
+			changed = true
+			continue
+		}
+		if fedits, fmsgs := funcVarRound(pkgs, overlay); len(fedits) > 0 {
+			log = append(log, fmsgs...)
+			prev = map[string][]byte{}
+			for k, v := range overlay {
+				prev[k] = v
+			}
+			for path, content := range fedits {
+				overlay[path] = content
+			}
+			changed = true
+			continue
+		}
+		if sedits, smsgs := splitCondRound(pkgs, overlay, &counter); len(sedits) > 0 {
+			log = append(log, smsgs...)
+			prev = map[string][]byte{}
+			for k, v := range overlay {
+				prev[k] = v
+			}
+			for path, content := range sedits {
 				overlay[path] = content
 			}
 			changed = true
@@ -395,7 +423,11 @@ func inlineRound(pkgs []*packages.Package, overlay map[string][]byte, testIdents
 		ast.Inspect(d.fd.Body, func(n ast.Node) bool {
 			if id, ok := n.(*ast.Ident); ok {
 				if o := originOf(d.pkg.TypesInfo.Uses[id]); o != nil && cand[o] != nil && o != obj {
-					callsCandidate = true
+					// a helper that cannot be inlined itself (some call of it stands where
+					// the inliner cannot put its body) does not hold up its callers
+					if _, isBlocked := blocked[o]; !isBlocked {
+						callsCandidate = true
+					}
 				}
 			}
 			return true
